@@ -671,6 +671,77 @@ fn det(tier: &str, seed: u64, outdir: &str) {
         }
         w.flush().unwrap();
     }
+    // (5) a very large document, then documents of the same shape with other spacing, on one
+    // thread: state keyed by position in the tree (spans of detached sources repeat from document
+    // to document) or sized by the largest document seen would show here
+    {
+        let fresh = |s: String, c: Cfg| -> Result<String, String> {
+            std::thread::Builder::new().stack_size(256 << 20).spawn(move || obs::format(&s, c)).unwrap().join().unwrap_or(Err("panic".into()))
+        };
+        // twins: the same document exploded (width 0) and joined (huge width)
+        let mut twins: Vec<(String, Cfg, Result<String, String>)> = vec![];
+        for i in (0..docs.len()).take(80) {
+            if let Ok(_) = &base[i] {
+                let c = docs[i].1;
+                for w in [0usize, 100_000] {
+                    if let Ok(t) = fresh(docs[i].0.clone(), Cfg { width: w, ..c }) {
+                        if t.len() < 20_000 {
+                            let r = fresh(t.clone(), c);
+                            twins.push((t, c, r));
+                        }
+                    }
+                }
+            }
+        }
+        // the large document: formatted results joined until they exceed 600 kB
+        let mut big = String::new();
+        let mut k = 0usize;
+        // only pieces that stay well-formed when they follow themselves
+        let safe: Vec<&String> = base
+            .iter()
+            .filter_map(|r| r.as_ref().ok())
+            .filter(|t| t.len() < 50_000 && !obs::parse(&format!("{}\n\n{}\n\n", t, t)).root().erroneous())
+            .collect();
+        while big.len() < 600_000 && !safe.is_empty() {
+            big += safe[k % safe.len()];
+            big += "\n\n";
+            k += 1;
+        }
+        if obs::parse(&big).root().erroneous() {
+            // fall back to one piece repeated
+            big.clear();
+            if let Some(t) = safe.iter().max_by_key(|t| t.len()) {
+                while big.len() < 600_000 {
+                    big += t;
+                    big += "\n\n";
+                }
+            }
+        }
+        let bigcfg = Cfg { tab: 2, width: 0, blank: 2, reorder: false };
+        let twins2 = twins.clone();
+        let res: Vec<bool> = std::thread::Builder::new()
+            .stack_size(1 << 30)
+            .spawn(move || {
+                let rb = obs::format(&big, bigcfg);
+                eprintln!("det step 5: large document of {} bytes: {}", big.len(), match &rb { Ok(o) => format!("formatted to {} bytes", o.len()), Err(e) => e.clone() });
+                twins2.iter().map(|(t, c, r)| &obs::format(t, *c) == r).collect()
+            })
+            .unwrap()
+            .join()
+            .unwrap_or_default();
+        for (j, ok) in res.iter().enumerate() {
+            st.evaluated += 1;
+            if !ok {
+                st.failures += 1;
+                fails.push(fail_json("C17", "det", j as u64, &twins[j].0, twins[j].1, "after-large", "result differs from the result on a fresh thread when a very large document and a document of the same shape were formatted before on this thread", ""));
+            }
+        }
+        if res.len() != twins.len() {
+            st.failures += 1;
+            fails.push(fail_json("C17", "det", 0, "", bigcfg, "after-large", "the thread that formatted the large document died", ""));
+        }
+        *st.by_gen.entry("schedules".into()).or_default() += 1;
+    }
     // (4) long history: a long-running process formats far more documents than any schedule
     // above; the same small documents, alternately, many times over (then once more from threads)
     {
